@@ -985,14 +985,14 @@ func Run(c *ev.Ctx) int {
 		run(func() { laneNames(c) })
 	}
 	rs := c.Rng("settings")
-	for i := 0; i < c.Pick(6, 60); i++ {
+	for i := 0; i < c.Pick(6, 200); i++ {
 		id := fmt.Sprintf("S/settings/%d", i)
 		seed := rs.Int63n(1 << 40)
 		if c.Want(id) {
 			run(func() { laneSettings(c, id, seed) })
 		}
 	}
-	for i := 0; i < c.Pick(3, 30); i++ {
+	for i := 0; i < c.Pick(3, 100); i++ {
 		id := fmt.Sprintf("S/list/%d", i)
 		seed := rs.Int63n(1 << 40)
 		if c.Want(id) {
@@ -1000,7 +1000,7 @@ func Run(c *ev.Ctx) int {
 		}
 	}
 	ra := c.Rng("acl")
-	for i := 0; i < c.Pick(6, 60); i++ {
+	for i := 0; i < c.Pick(6, 200); i++ {
 		id := fmt.Sprintf("A/acl/%d", i)
 		seed := ra.Int63n(1 << 40)
 		run(func() { laneACL(c, id, seed) })
@@ -1015,7 +1015,7 @@ func Run(c *ev.Ctx) int {
 	wg.Wait()
 	rx := c.Rng("stress")
 	sem := make(chan struct{}, 6)
-	for i := 0; i < c.Pick(4, 40); i++ {
+	for i := 0; i < c.Pick(4, 120); i++ {
 		id := fmt.Sprintf("X/%d", i)
 		seed := rx.Int63n(1 << 30)
 		if !c.Want(id) {
